@@ -161,6 +161,14 @@ def _header_names_with(head: bytes, needle: bytes):
     return names
 
 
+def _opt(X, name, menu, default):
+    """selector that only exists in the thorough tier; a witness recorded in the quick tier replays with the quick value"""
+    try:
+        return X.choose(name, menu)
+    except KeyError:
+        return default
+
+
 def h_modes(X, mode_names, scenarios, thorough=False):
     mode_name = X.choose("mode", mode_names)
     scenario = X.choose("scenario", scenarios)
@@ -169,9 +177,9 @@ def h_modes(X, mode_names, scenarios, thorough=False):
     proxy_mode = mode_name in ("regular", "upstream:http", "upstream:https")
     form = X.choose("request_form", ["absolute", "origin", "absolute-https"]) if (proxy_mode and scenario in ("plain", "direct-tls")) else "origin"
     second = X.choose("second_request", ["none", "same-host", "other-host"])
-    third = X.choose("third_request", ["none", "same-host", "other-host"]) if (thorough and second != "none") else "none"
-    keep_host = X.boolean("keep_host_header") if thorough else False
-    connect_host_hdr = X.boolean("http_connect_send_host_header") if thorough else True
+    third = _opt(X, "third_request", ["none", "same-host", "other-host"], "none") if (thorough and second != "none") else "none"
+    keep_host = _opt(X, "keep_host_header", [False, True], False) if thorough else False
+    connect_host_hdr = _opt(X, "http_connect_send_host_header", [True, False], True) if thorough else True
 
     opts, ua = _make_options(auth, strategy)
     if thorough:
